@@ -138,7 +138,7 @@ def run_selection(ctx, T):
             return mism, 0, {}
         coq_chains += p
     t0 = time.time()
-    budget = ctx.budget(50.0, 500.0)
+    budget = ctx.budget(35.0, 500.0)
     outcomes = {"structural": 0, "generic": 0, "nonunique": 0}
     skipped = 0
     for (fn, req, opt), cchain in zip(cases, coq_chains):
@@ -449,7 +449,7 @@ def probe_flags(T):
     import cola.linalg as LA
     from cola.ops import Dense, Kronecker, KronSum
     S = np.array([[2., 1.], [1., 3.]])
-    n2 = 40
+    n2 = 30
     rng = np.random.default_rng(1)
     B = spd(rng, n2)
     KS = KronSum(Dense(B), Dense(B))
@@ -511,17 +511,21 @@ def run(ctx):
     evaluations = 0
     samples = []
     try:
+        t0 = time.time()
         m, n, ex = run_selection(ctx, T)
         mismatches += m
         evaluations += n
         extra.update(ex)
+        extra["selection_seconds"] = round(time.time() - t0, 1)
     except Exception:
         mismatches.append(dict(oracle_fail=False, what="selection correspondence crashed", harness_error=traceback.format_exc()[-2500:]))
     try:
+        t0 = time.time()
         m, n, ex, samples = run_cost(ctx, T, flags)
         mismatches += m
         evaluations += n
         extra.update(ex)
+        extra["cost_seconds"] = round(time.time() - t0, 1)
     except Exception:
         mismatches.append(dict(oracle_fail=False, what="cost correspondence crashed", harness_error=traceback.format_exc()[-2500:]))
     nontrivial = extra.get("selection_compared", 0) + extra.get("matmat_cases", 0) + extra.get("linalg_cases", 0)
